@@ -194,3 +194,5 @@ func ReqMsg(tid datatransfer.TransferID, restart, pull bool) datatransfer.Reques
 func ExtOf(m datatransfer.Message, names ...graphsync.ExtensionName) map[graphsync.ExtensionName]datamodel.Node {
 	return extOf(m, names...)
 }
+
+func RespMsg(tid datatransfer.TransferID) datatransfer.Response { return respMsg(tid) }
